@@ -455,7 +455,6 @@ func TestVerifC07(t *testing.T) {
 	_ = bytes.Equal
 }
 
-
 func c07EndToEnd(R *vr.Result) {
 	rng := R.Rand("c07-e2e")
 	dir := ovlWork("c07-e2e")
